@@ -72,8 +72,8 @@ def content_dependent_throws(fn):
                 changed = True
     out = []
     for n, parents in ir.walk_with_parents(fn["body"]):
-        if n.get("k") != "Throw":
-            continue
+        if n.get("k") != "Throw" or n.get("rethrow") or (n.get("e") is None and any(a.get("k") == "Try" or "handlers" in a for a in parents)):
+            continue          # `throw;` passes an exception on, it does not reject anything itself
         for a in parents:
             c = None
             if a.get("k") == "If":
